@@ -506,6 +506,26 @@ HAND = [
 ]
 
 
+def keyclash():
+    """EqualType memoises (name, type) pairs under their PRINTED form, so its coinductive part is sound only while printing is
+    injective.  For every pair (t1, t2) of different types that differ only in where the brackets are - a shift, a pair or
+    a function in left-operand position - a name X = t1 is compared inside one choice first with t1 (recording the key)
+    and then with t2, and the other way round, under + and under &"""
+    amb = []
+    for op in ("*", "-*"):
+        for sh in ("lin /\\ aff", "aff /\\ aff", "lin \\/ lin", "aff \\/ lin", "rep \\/ lin"):
+            amb.append(("(%s 1) %s 1" % (sh, op), "%s (1 %s 1)" % (sh, op)))
+        for op2 in ("*", "-*"):
+            amb.append(("(1 %s 1) %s 1" % (op, op2), "1 %s (1 %s 1)" % (op, op2)))
+    out = []
+    for k, (t1, t2) in enumerate(amb):
+        for cb, ce, tag in (("+{", "}", "plus"), ("&{", "}", "with")):
+            out.append(("hand:keyclash-%s-%d" % (tag, k),
+                        "type X = %s\ntype Y = %s\ntype Q0 = %sp : X, q : X%s\ntype Q1 = %sp : %s, q : %s%s\ntype Q2 = %sp : %s, q : %s%s\ntype Q3 = %sp : Y, q : Y%s\ntype Q4 = %sp : X, q : Y%s"
+                        % (t1, t2, cb, ce, cb, t1, t2, ce, cb, t2, t1, ce, cb, ce, cb, ce)))
+    return out
+
+
 def deep(p, q):
     """two unary recursive types of periods p and q: the comparison visits ~ lcm(p, q) distinct pairs
     at recursion depth ~ 2 * lcm(p, q) (the case that needs quadratic fuel)"""
@@ -524,6 +544,8 @@ def stream(seed, n_cases, pool_max, env_size=6):
     from . import common as C
     for p in sorted(glob.glob(os.path.join(C.CORPUS, "eq", "*.grits"))):
         yield "corpus:" + os.path.basename(p), "hand", open(p, "rb").read().decode("latin1"), None
+    for i, t in keyclash():
+        yield i, "hand", t, None
     yield "hand:deep-7-8", "hand", deep(7, 8), None
     yield "hand:deep-40-41", "hand", deep(40, 41), None
     rng = random.Random(seed)
